@@ -688,3 +688,112 @@ Lemma parse_hdr_none a msg : parse_hdr a msg = None <-> len msg < hdr_len a.
 Proof.
   unfold parse_hdr. destruct (len msg <? hdr_len a) eqn:E; split; intros H; try lia; try reflexivity; discriminate.
 Qed.
+
+(* ---- ASDU-level round trip: element idx of a payload that is the concatenation of encodings --------------- *)
+Lemma split_nth (d : io) (l : list io) : forall i, (i < List.length l)%nat -> l = firstn i l ++ nth i l d :: skipn (S i) l.
+Proof.
+  induction l as [|x t IH]; intros i Hi; cbn [List.length] in Hi; [lia|].
+  destruct i as [|i]; cbn [firstn nth skipn app]; [reflexivity|]. f_equal. apply IH. lia.
+Qed.
+
+Lemma enc_concat_len a sq n (l : list io) : 0 <= ioa_sz a -> (forall o, In o l -> len (io_body o) = n) ->
+  len (List.concat (map (enc_bytes a sq) l)) = Z.of_nat (List.length l) * enc_size a sq n.
+Proof.
+  intros Hi. induction l as [|x t IH]; intros H; cbn [map List.concat List.length].
+  - reflexivity.
+  - rewrite len_app, (enc_bytes_len a sq x n) by (try lia; apply H; left; reflexivity).
+    rewrite IH by (intros o Ho; apply H; right; exact Ho). lia.
+Qed.
+
+Lemma nthz_app_l i (h x : list Z) : 0 <= i < len h -> nthz i (h ++ x) = nthz i h.
+Proof. unfold nthz, len. intros H. apply app_nth1. lia. Qed.
+
+Lemma io_eta o : {| io_addr := io_addr o; io_body := io_body o |} = o.
+Proof. destruct o; reflexivity. Qed.
+
+Lemma In_firstn {A} (x : A) n l : In x (firstn n l) -> In x l.
+Proof. revert l. induction n as [|n IH]; intros l H; [destruct H|]. destruct l; [destruct H|]. cbn in H. destruct H; [left|right]; auto. Qed.
+
+(* the idx-th object of a payload built from individually addressed objects *)
+Lemma dec_spec_concat a n (ios : list io) (d : io) (i : nat) :
+  ioa_ok a -> (forall o, In o ios -> len (io_body o) = n /\ addr_ok a (io_addr o)) -> (i < List.length ios)%nat ->
+  dec_spec a (List.concat (map (enc_bytes a false) ios)) (Z.of_nat i * (ioa_sz a + n)) true n = Some (nth i ios d).
+Proof.
+  intros Ha Hios Hi. assert (0 < ioa_sz a <= 3) by (unfold ioa_ok in Ha; lia).
+  pose proof (split_nth d ios i Hi) as Hs.
+  assert (Hin : In (nth i ios d) ios) by (apply nth_In; exact Hi).
+  destruct (Hios _ Hin) as [Hb Hv].
+  rewrite Hs at 1. rewrite map_app, concat_app. cbn [map List.concat].
+  assert (Hl : len (List.concat (map (enc_bytes a false) (firstn i ios))) = Z.of_nat i * (ioa_sz a + n)).
+  { rewrite (enc_concat_len a false n) by (try lia; intros o Ho; apply Hios; eapply In_firstn; exact Ho).
+    rewrite firstn_length. unfold enc_size. replace (Nat.min i (List.length ios)) with i by lia. reflexivity. }
+  rewrite <- Hl. rewrite (obj_roundtrip a false (nth i ios d) n _ _ Ha Hv Hb). cbn. rewrite io_eta. reflexivity.
+Qed.
+
+Theorem payload_roundtrip_sq0 tbl a r n h (ios : list io) (d : io) (i : nat) :
+  ioa_ok a -> len h = hdr_len a -> 2 <= len h ->
+  find_row tbl (nthz 0 h) = Some r -> row_dec_okb r = true -> std_len (tid r) = Some (Fixed n) ->
+  0 <= nthz 1 h < 128 ->
+  (forall o, In o ios -> len (io_body o) = n /\ addr_ok a (io_addr o)) ->
+  (r_elem r = ESingle -> i = 0%nat) -> (i < List.length ios)%nat ->
+  get_element tbl a (h ++ List.concat (map (enc_bytes a false) ios)) (Z.of_nat i) = Ok (Some (nth i ios d)).
+Proof.
+  intros Ha Hh H2 Hf Hr Hs Hsq Hios Hone Hi.
+  set (P := List.concat (map (enc_bytes a false) ios)).
+  assert (Ht : msg_type (h ++ P) = nthz 0 h) by (unfold msg_type; apply nthz_app_l; lia).
+  assert (Hq : msg_sq (h ++ P) = false).
+  { unfold msg_sq. rewrite nthz_app_l by lia. destruct (128 <=? nthz 1 h) eqn:E; [lia|reflexivity]. }
+  rewrite (get_element_spec tbl a (h ++ P) (Z.of_nat i) r Ha) by (try lia; try rewrite Ht; assumption).
+  f_equal. unfold spec_element. rewrite Ht, Hf, Hs, Hq.
+  pose proof (len_nonneg P).
+  destruct (len (h ++ P) <? hdr_len a) eqn:E; [rewrite len_app in E; lia|].
+  rewrite <- Hh, zskipn_app_exact.
+  pose proof (dec_spec_concat a n ios d i Ha Hios Hi) as Hd. fold P in Hd.
+  unfold row_dec_okb in Hr. rewrite Hs in Hr. apply andb_prop in Hr as [_ He].
+  destruct (r_elem r) as [nsq k gn ga|k| |why]; cbn [elem_okb] in He; try discriminate.
+  - exact Hd.
+  - exact Hd.
+  - rewrite (Hone eq_refl) in *. cbn [Z.of_nat] in Hd. rewrite Z.mul_0_l in Hd. exact Hd.
+Qed.
+
+(* the idx-th element of a consecutive-address (SQ = 1) payload: one address, then the bodies *)
+Theorem payload_roundtrip_sq1 tbl a r n h base (ios : list io) (d : io) (i : nat) nsq k gn ga :
+  ioa_ok a -> len h = hdr_len a -> 2 <= len h ->
+  find_row tbl (nthz 0 h) = Some r -> row_dec_okb r = true -> std_len (tid r) = Some (Fixed n) ->
+  r_elem r = ESeq nsq k gn ga -> 128 <= nthz 1 h -> addr_ok a base ->
+  (forall o, In o ios -> len (io_body o) = n) ->
+  (i < List.length ios)%nat ->
+  get_element tbl a (h ++ ioa_bytes a base ++ List.concat (map (enc_bytes a true) ios)) (Z.of_nat i) =
+    Ok (Some {| io_addr := base + Z.of_nat i; io_body := io_body (nth i ios d) |}).
+Proof.
+  intros Ha Hh H2 Hf Hr Hs Hel Hsq Hbase Hios Hi. assert (0 < ioa_sz a <= 3) by (unfold ioa_ok in Ha; lia).
+  set (P := ioa_bytes a base ++ List.concat (map (enc_bytes a true) ios)).
+  assert (Ht : msg_type (h ++ P) = nthz 0 h) by (unfold msg_type; apply nthz_app_l; lia).
+  assert (Hq : msg_sq (h ++ P) = true).
+  { unfold msg_sq. rewrite nthz_app_l by lia. destruct (128 <=? nthz 1 h) eqn:E; [reflexivity|lia]. }
+  rewrite (get_element_spec tbl a (h ++ P) (Z.of_nat i) r Ha) by (try lia; try rewrite Ht; assumption).
+  f_equal. unfold spec_element. rewrite Ht, Hf, Hs, Hq, Hel.
+  pose proof (len_nonneg P).
+  destruct (len (h ++ P) <? hdr_len a) eqn:E; [rewrite len_app in E; lia|].
+  rewrite <- Hh, zskipn_app_exact.
+  pose proof (split_nth d ios i Hi) as Hsp.
+  assert (Hin : In (nth i ios d) ios) by (apply nth_In; exact Hi).
+  pose proof (Hios _ Hin) as Hb.
+  assert (HP : P = (ioa_bytes a base ++ List.concat (map (enc_bytes a true) (firstn i ios))) ++
+                   enc_bytes a true (nth i ios d) ++ List.concat (map (enc_bytes a true) (skipn (S i) ios))).
+  { unfold P. rewrite Hsp at 1. rewrite map_app, concat_app. cbn [map List.concat]. rewrite <- app_assoc. reflexivity. }
+  assert (Hl : len (ioa_bytes a base ++ List.concat (map (enc_bytes a true) (firstn i ios))) = ioa_sz a + Z.of_nat i * n).
+  { rewrite len_app, ioa_bytes_len by lia.
+    rewrite (enc_concat_len a true n) by (try lia; intros o Ho; apply Hios; eapply In_firstn; exact Ho).
+    rewrite firstn_length. unfold enc_size. replace (Nat.min i (List.length ios)) with i by lia. reflexivity. }
+  assert (Hv0 : addr_ok a 0) by (unfold addr_ok; split; [lia|apply Z.pow_pos_nonneg; lia]).
+  pose proof (obj_roundtrip a true {| io_addr := 0; io_body := io_body (nth i ios d) |} n
+                (ioa_bytes a base ++ List.concat (map (enc_bytes a true) (firstn i ios)))
+                (List.concat (map (enc_bytes a true) (skipn (S i) ios))) Ha Hv0 Hb) as Hd.
+  rewrite Hl in Hd. cbn [negb] in Hd.
+  assert (Heq : enc_bytes a true {| io_addr := 0; io_body := io_body (nth i ios d) |} = enc_bytes a true (nth i ios d)) by reflexivity.
+  rewrite Heq, <- HP in Hd. rewrite Hd. cbn [io_body].
+  f_equal. f_equal.
+  unfold P. rewrite <- (ioa_bytes_len a base) at 1 by lia. rewrite zfirstn_app_exact.
+  rewrite le_dec_ioa_bytes by assumption. reflexivity.
+Qed.
